@@ -1777,3 +1777,234 @@ CASES += [
             SddPtr::Var(_, false) if !value => SddPtr::PtrTrue,
             SddPtr::Var(..) => SddPtr::PtrFalse,"""),
 ]
+
+# ------------------------------------------------------------------ round 7: VO across crate calls, DI, FS reduce, PR keyed weights, CM per impl
+WMC = "src/repr/wmc.rs"
+_FIRST_UNSET_LABELS = ("src/repr/unit_prop.rs", """    pub fn is_set(&self, var: VarLabel) -> bool {
+        self.top_state().model.is_set(var)
+    }
+}
+""", """    pub fn is_set(&self, var: VarLabel) -> bool {
+        self.top_state().model.is_set(var)
+    }
+
+    pub fn first_unset_from(&self, start: usize) -> Option<usize> {
+        let model = &self.top_state().model;
+        (start..self.contains_pos_lit.len()).find(|&i| !model.is_set(VarLabel::new_usize(i)))
+    }
+}
+""")
+_DI_FIELDS = [(WMC, """    var_to_val: Vec<Option<(T, T)>>,
+}""", """    var_to_val: Vec<Option<(T, T)>>,
+    total: std::cell::OnceCell<usize>,
+}"""), (WMC, """            var_to_val: var_to_val_vec,
+""", """            var_to_val: var_to_val_vec,
+            total: std::cell::OnceCell::new(),
+"""), (WMC, """            var_to_val: Vec::new(),
+""", """            var_to_val: Vec::new(),
+            total: std::cell::OnceCell::new(),
+""")]
+CASES += [
+    dict(name="vo-argspace-label-scan-given-a-level", file=DN, rule="VO", props=["C06"], expect="arg-space:first_unset_from",
+         old="""        let cur_v = self.order().var_at_level(level);
+
+        // check if this literal is currently set in unit propagation; if
+        // it is, skip it
+        if sat.is_set(cur_v) {
+            return self.topdown_h(cnf, sat, level + 1, cache);
+        }
+""",
+         new="""        let level = match sat.first_unset_from(level) {
+            Some(l) => l,
+            None => return BddPtr::true_ptr(),
+        };
+        let cur_v = self.order().var_at_level(level);
+""", more=[_FIRST_UNSET_LABELS]),
+    dict(name="vo-argspace-level-scan-ok", file=DN, rule="VO", props=["C06", "C14"], expect=None,
+         old="""        let cur_v = self.order().var_at_level(level);
+
+        // check if this literal is currently set in unit propagation; if
+        // it is, skip it
+        if sat.is_set(cur_v) {
+            return self.topdown_h(cnf, sat, level + 1, cache);
+        }
+""",
+         new="""        let n = cnf.num_vars();
+        let level = match (level..n).find(|&l| !sat.is_set(self.order().var_at_level(l))) {
+            Some(l) => l,
+            None => return BddPtr::true_ptr(),
+        };
+        let cur_v = self.order().var_at_level(level);
+"""),
+    dict(name="di-lazy-field-reset-on-growth-only", file=WMC, rule="DI", props=["C07", "C10"], expect="set_weight:DI:total",
+         old="""        while n >= self.var_to_val.len() {
+            self.var_to_val.push(None);
+        }
+        self.var_to_val[n] = Some((low, high));""",
+         new="""        if n >= self.var_to_val.len() {
+            self.var_to_val.resize(n + 1, None);
+            self.total.take();
+        }
+        self.var_to_val[n] = Some((low, high));""", more=_DI_FIELDS),
+    dict(name="di-lazy-field-always-reset-ok", file=WMC, rule="DI", props=["C07", "C10"], expect=None,
+         old="""        while n >= self.var_to_val.len() {
+            self.var_to_val.push(None);
+        }
+        self.var_to_val[n] = Some((low, high));""",
+         new="""        self.total.take();
+        while n >= self.var_to_val.len() {
+            self.var_to_val.push(None);
+        }
+        self.var_to_val[n] = Some((low, high));""", more=_DI_FIELDS),
+    dict(name="fs-reduce-or-defaults-to-true", file="src/plan/bottom_up_plan.rs", rule="FS", props=["C05"], expect="reduce<-or",
+         old="""                if clause.is_empty() {
+                    Self::ConstFalse
+                } else if clause.len() == 1 {
+                    Self::literal(clause[0].label(), clause[0].polarity())
+                } else {
+                    let first_lit = Self::literal(clause[0].label(), clause[0].polarity());
+                    clause.iter().skip(1).fold(first_lit, |acc, i| {
+                        let new_l = Self::literal(i.label(), i.polarity());
+                        Self::or(acc, new_l)
+                    })
+                }""",
+         new="""                clause
+                    .iter()
+                    .map(|i| Self::literal(i.label(), i.polarity()))
+                    .reduce(|acc, l| Self::or(acc, l))
+                    .unwrap_or(Self::ConstTrue)"""),
+    dict(name="pr-weight-looked-up-by-literal", file=UP, rule="PR", props=["C09", "C06"], expect="SATSolver::new:fresh-primes",
+         old="""                let mut primes = primal::Primes::all();
+                let clauses: Vec<Vec<(Literal, u128)>> = i
+                    .map({
+                        |clause| {
+                            clause
+                                .iter()
+                                .map(|lit| (*lit, primes.next().unwrap() as u128))
+                                .collect()
+                        }
+                    })
+                    .collect();""",
+         new="""                let lit_primes: Vec<u128> = primal::Primes::all().take(2 * cnf.num_vars()).map(|p| p as u128).collect();
+                let weight_of = |lit: &Literal| -> u128 { lit_primes[2 * lit.label().value_usize() + usize::from(lit.polarity())] };
+                let clauses: Vec<Vec<(Literal, u128)>> = i
+                    .map(|clause| clause.iter().map(|lit| (*lit, weight_of(lit))).collect())
+                    .collect();"""),
+    dict(name="cm-semantic-compress-stale-prime", file=SEM, rule="CM", props=["C11"], expect="SemanticSddBuilder<P> as builder::sdd::builder::SddBuilder>::compress:CM2",
+         old="""    fn compress(&'a self, _node: &mut Vec<SddAnd<'a>>) {}""",
+         new="""    fn compress(&'a self, node: &mut Vec<SddAnd<'a>>) {
+        use crate::builder::BottomUpBuilder;
+        let mut i = 0;
+        while i < node.len() {
+            let (prime, sub) = (node[i].prime(), node[i].sub());
+            let mut j = i + 1;
+            while j < node.len() {
+                if self.sdd_eq(sub, node[j].sub()) {
+                    node[i] = SddAnd::new(self.or(prime, node[j].prime()), sub);
+                    node.swap_remove(j);
+                } else {
+                    j += 1;
+                }
+            }
+            i += 1;
+        }
+    }"""),
+    dict(name="cm-semantic-compress-fresh-prime-ok", file=SEM, rule="CM", props=["C11"], expect=None,
+         old="""    fn compress(&'a self, _node: &mut Vec<SddAnd<'a>>) {}""",
+         new="""    fn compress(&'a self, node: &mut Vec<SddAnd<'a>>) {
+        use crate::builder::BottomUpBuilder;
+        let mut i = 0;
+        while i < node.len() {
+            let sub = node[i].sub();
+            let mut j = i + 1;
+            while j < node.len() {
+                if self.sdd_eq(sub, node[j].sub()) {
+                    node[i] = SddAnd::new(self.or(node[i].prime(), node[j].prime()), sub);
+                    node.swap_remove(j);
+                } else {
+                    j += 1;
+                }
+            }
+            i += 1;
+        }
+    }"""),
+    dict(name="mp-from-sexpr-own-lexicographic-numbering", file="src/serialize/ser_logical_expr.rs", rule="MP", props=["C19", "C17"],
+         expect="from_sexpr:variable-numbering",
+         old="""        v.sort();
+        HashMap::from_iter""",
+         new="""        v.sort_by_key(|s| (s.len(), (*s).clone()));
+        HashMap::from_iter""",
+         more=[("src/repr/logical_expr.rs", """        let mapping = sexpr.variable_mapping();
+""", """        let mut names: Vec<&String> = sexpr.unique_variables().into_iter().collect();
+        names.sort();
+        let mapping: HashMap<&String, usize> = names.into_iter().enumerate().map(|(i, s)| (s, i)).collect();
+""")]),
+    dict(name="mp-variable-mapping-natural-order-alone-ok", file="src/serialize/ser_logical_expr.rs", rule="MP", props=["C19", "C17"], expect=None,
+         old="""        v.sort();
+        HashMap::from_iter""",
+         new="""        v.sort_by_key(|s| (s.len(), (*s).clone()));
+        HashMap::from_iter"""),
+]
+
+# ------------------------------------------------------------------ HS7 occurrence index / CP returned-from-table / LAW tolerance equality
+CNF_RS = "src/repr/cnf.rs"
+_OCC_SKIP_UNITS = [(CNF_RS, """                        if clause.contains(&Literal::new(VarLabel::new_usize(lit_idx), true)) {""",
+                    """                        if clause.len() > 1 && clause.contains(&Literal::new(VarLabel::new_usize(lit_idx), true)) {"""),
+                   (CNF_RS, """                        if clause.contains(&Literal::new(VarLabel::new_usize(lit_idx), false)) {""",
+                    """                        if clause.len() > 1 && clause.contains(&Literal::new(VarLabel::new_usize(lit_idx), false)) {""")]
+CASES += [
+    dict(name="hs7-index-skips-units-and-rows-handed-out", file=CNF_RS, rule="HS", props=["C15"], expect="occurrences:HS7:index-use",
+         old="""    pub fn decide(&mut self, lit: Literal) {
+        if lit.polarity() {
+            for clause_idx in self.pos_lits""",
+         new="""    pub fn occurrences(&self, lit: Literal) -> &[usize] {
+        if lit.polarity() {
+            self.pos_lits[lit.label().value_usize()].as_slice()
+        } else {
+            self.neg_lits[lit.label().value_usize()].as_slice()
+        }
+    }
+
+    pub fn decide(&mut self, lit: Literal) {
+        if lit.polarity() {
+            for clause_idx in self.pos_lits""", more=_OCC_SKIP_UNITS),
+    dict(name="hs7-index-skips-units-alone-ok", file=CNF_RS, rule="HS", props=["C15"], expect=None,
+         old=_OCC_SKIP_UNITS[0][1], new=_OCC_SKIP_UNITS[0][2], more=_OCC_SKIP_UNITS[1:]),
+    dict(name="hs7-rows-handed-out-alone-ok", file=CNF_RS, rule="HS", props=["C15"], expect=None,
+         old="""    pub fn decide(&mut self, lit: Literal) {
+        if lit.polarity() {
+            for clause_idx in self.pos_lits""",
+         new="""    pub fn occurrences(&self, lit: Literal) -> &[usize] {
+        if lit.polarity() {
+            self.pos_lits[lit.label().value_usize()].as_slice()
+        } else {
+            self.neg_lits[lit.label().value_usize()].as_slice()
+        }
+    }
+
+    pub fn decide(&mut self, lit: Literal) {
+        if lit.polarity() {
+            for clause_idx in self.pos_lits"""),
+    dict(name="law-eq-by-tolerance", file="src/util/semirings/expectation.rs", rule="LAW", props=["C12", "C13"], expect="ExpectedUtility:eq-is-value-equality",
+         old="""#[derive(Debug, Clone, Copy, PartialEq)]
+pub struct ExpectedUtility(pub f64, pub f64);""",
+         new="""#[derive(Debug, Clone, Copy)]
+pub struct ExpectedUtility(pub f64, pub f64);
+
+impl PartialEq for ExpectedUtility {
+    fn eq(&self, other: &ExpectedUtility) -> bool {
+        (self.0 - other.0).abs() <= 1e-9 && (self.1 - other.1).abs() <= 1e-9
+    }
+}"""),
+    dict(name="law-eq-handwritten-componentwise-ok", file="src/util/semirings/expectation.rs", rule="LAW", props=["C12", "C13"], expect=None,
+         old="""#[derive(Debug, Clone, Copy, PartialEq)]
+pub struct ExpectedUtility(pub f64, pub f64);""",
+         new="""#[derive(Debug, Clone, Copy)]
+pub struct ExpectedUtility(pub f64, pub f64);
+
+impl PartialEq for ExpectedUtility {
+    fn eq(&self, other: &ExpectedUtility) -> bool {
+        self.0 == other.0 && self.1 == other.1
+    }
+}"""),
+]
